@@ -305,7 +305,7 @@ def canonicalise(tree, relpath: str) -> Dict[str, Dict[str, str]]:
     applied = {}
     for q, fnode in _functions(tree):
         rs = ref.get(q)
-        if rs is None:
+        if rs is None or q.startswith('#'):
             continue
         before = set(_params(fnode))
         m = plan(fnode, rs)
@@ -371,6 +371,9 @@ def build_reference(root: str, files: List[str]) -> dict:
         for q, fnode in _functions(tree):
             sig = signature(fnode)
             per[q] = {'p': _param_list(fnode), 'l': [[n, d] for n, d in sig]}
+        # classes and module-level names known to the reference (a record type that is not listed is new: see normalize N13)
+        per['#classes'] = {'p': [], 'l': [[n.name, ''] for n in ast.walk(tree) if isinstance(n, ast.ClassDef)] +
+                           [[t.id, ''] for n in tree.body if isinstance(n, ast.Assign) for t in n.targets if isinstance(t, ast.Name)]}
         if per:
             out[rel] = per
     return out
